@@ -50,6 +50,11 @@ CHECK = {
         "trace": ("XABranch_Trace", "XABranch_Trace.cfg"),
         "shards": 8,
     }, {
+        "name": "xab-slow", "driver": "xab", "env": {"XAB_SLOW": "1"},
+        "gen": [("XABranch_Gen", "XABranch_GenSlow.cfg")],
+        "trace": ("XABranch_Trace", "XABranch_Trace.cfg"),
+        "shards": 8,
+    }, {
         "name": "xab-ids", "driver": "xab", "args": ["-mode", "ids"],
         "trace": ("XABranch_Trace", "XABranch_Trace.cfg"),
     }],
